@@ -19,14 +19,31 @@ Definition vout_eqb (a b : vout) : bool :=
   | _, _ => false
   end.
 
+(** What the harness observes of signature.VerifyMultiSignature called directly. *)
+Inductive mobs := MONil | MOErr (e : verr) | MOPanic.
+
+Definition mobs_eqb (model : mres) (o : mobs) : bool :=
+  match model, o with
+  | MOk, MONil => true
+  | MErr e, MOErr e' => verr_eqb e e'
+  | MCrash, MOPanic => true
+  | _, _ => false
+  end.
+
+(** [CMulti tb h keys m sigs o]: signature.VerifyMultiSignature(h, keys, m, sigs) called directly
+    (key lists with hostile encodings: the library's Verify may panic, the wrapper maps that to
+    "does not verify"); [tb] supplies the abstract signatures and the weak keys. *)
 Inductive case :=
 | CCheck (t : vtx) (tb : tables) (o : obs) (code : option N)
-| CAbs (weak : bool) (k : pubkey) (h : bytes) (s : asig) (v : vout).
+| CAbs (weak : bool) (k : pubkey) (h : bytes) (s : asig) (v : vout)
+| CMulti (tb : tables) (h : bytes) (keys : list pubkey) (m : Z) (sigs : list bytes) (o : mobs).
 
 Definition case_ok (c : case) : bool :=
   match c with
   | CCheck t tb o code => obs_eqb (run_cts tb t) o && oN_eqb (run_code tb t) code
   | CAbs w k h s v => vout_eqb (abs_verify (fun _ => w) k h s) v
+  | CMulti tb h keys m sigs o =>
+    mobs_eqb (verify_multi asig (tlookup (t_s tb)) (abs_verify (wlookup (t_w tb))) h keys m sigs) o
   end.
 
 Definition mismatches := mism case_ok.
